@@ -6,6 +6,7 @@ Cartesian product of the (type-filtered) domains (vlib/eql_engine.oracle).
 """
 from __future__ import annotations
 
+import json
 from collections import Counter
 
 from vlib import eql_engine as G
@@ -36,7 +37,8 @@ def plan(tier):
             "shard_timeout": 3000, "min_nontrivial": 300 if tier == "quick" else 2000,
             "min_counters": {"rows_compared": 5000, "family:core": 100, "family:rich": 100, "family:flat": 50,
                              "family:forall": 50, "family:E2": 30, "family:sub": 30, "family:subscalar": 30,
-                             "reevaluations_after_in_place_changes": 1500}}
+                             "reevaluations_after_in_place_changes": 1500,
+                             "cases_with_one_shot_collections_in_the_query": 300}}
 
 
 def setup(ctx):
@@ -102,6 +104,8 @@ def gen(rng, tier, ctx):
     spec["share_terms"] = rng.random() < 0.3
     # a fifth of the cases are evaluated a second time after in-place changes of the world
     spec["again"] = rng.randrange(1, 10 ** 6) if rng.random() < 0.2 else None
+    # collections written into the query (in_(x.a, [...])) are handed over as generators in a part of the cases
+    spec["oneshot_literals"] = '["lit", [' in json.dumps(spec.get("cond")) and rng.random() < 0.4
     return spec
 
 
@@ -403,6 +407,7 @@ def run(spec, ctx):
             C["feat:" + k] += 1
     if err is None and set(got) == set(exp):
         C["rows_compared"] += len(got)
+        C["cases_with_one_shot_collections_in_the_query"] += bool(spec.get("oneshot_literals"))
         cand = spec.get("_cand")
         if cand is None:
             s2 = dict(spec)
@@ -492,6 +497,8 @@ def witnesses():
     xa0 = ["cmp", "==", ["attr", ["var", "x"], "a"], ["lit", 0]]
     ya0 = ["cmp", "==", ["attr", ["var", "y"], "a"], ["lit", 0]]
     return {
+        "one-shot-collection-drained-by-the-first-binding": dict(
+            _w(["in", ["attr", ["var", "x"], "a"], ["lit", [0, 1]]], [["var", "x"], ["var", "y"]], [X, Y]), oneshot_literals=True),
         "neg-over-union": _w(["not", ["or", xa0, ya0]], [["var", "x"]], [X, Y]),
         "short-circuit-empty-domain": _w(["or", xa0, ya0], [["var", "x"]], [X, Y0]),
         "select-unbound-cross-product": _w(None, [["var", "x"], ["attr", ["var", "x"], "name"]], [X]),
